@@ -1,27 +1,45 @@
-lib/Bytes.vo lib/Bytes.glob lib/Bytes.v.beautified lib/Bytes.required_vo: lib/Bytes.v 
-lib/Bytes.vio: lib/Bytes.v 
-lib/Bytes.vos lib/Bytes.vok lib/Bytes.required_vos: lib/Bytes.v 
-lib/Utf8.vo lib/Utf8.glob lib/Utf8.v.beautified lib/Utf8.required_vo: lib/Utf8.v lib/Bytes.vo
-lib/Utf8.vio: lib/Utf8.v lib/Bytes.vio
-lib/Utf8.vos lib/Utf8.vok lib/Utf8.required_vos: lib/Utf8.v lib/Bytes.vos
 gen/Facts_HTMLEscape.vo gen/Facts_HTMLEscape.glob gen/Facts_HTMLEscape.v.beautified gen/Facts_HTMLEscape.required_vo: gen/Facts_HTMLEscape.v 
 gen/Facts_HTMLEscape.vio: gen/Facts_HTMLEscape.v 
 gen/Facts_HTMLEscape.vos gen/Facts_HTMLEscape.vok gen/Facts_HTMLEscape.required_vos: gen/Facts_HTMLEscape.v 
 gen/Facts_escapers.vo gen/Facts_escapers.glob gen/Facts_escapers.v.beautified gen/Facts_escapers.required_vo: gen/Facts_escapers.v 
 gen/Facts_escapers.vio: gen/Facts_escapers.v 
 gen/Facts_escapers.vos gen/Facts_escapers.vok gen/Facts_escapers.required_vos: gen/Facts_escapers.v 
+gen/Facts_vm.vo gen/Facts_vm.glob gen/Facts_vm.v.beautified gen/Facts_vm.required_vo: gen/Facts_vm.v 
+gen/Facts_vm.vio: gen/Facts_vm.v 
+gen/Facts_vm.vos gen/Facts_vm.vok gen/Facts_vm.required_vos: gen/Facts_vm.v 
+lib/Bytes.vo lib/Bytes.glob lib/Bytes.v.beautified lib/Bytes.required_vo: lib/Bytes.v 
+lib/Bytes.vio: lib/Bytes.v 
+lib/Bytes.vos lib/Bytes.vok lib/Bytes.required_vos: lib/Bytes.v 
+lib/Utf8.vo lib/Utf8.glob lib/Utf8.v.beautified lib/Utf8.required_vo: lib/Utf8.v lib/Bytes.vo
+lib/Utf8.vio: lib/Utf8.v lib/Bytes.vio
+lib/Utf8.vos lib/Utf8.vok lib/Utf8.required_vos: lib/Utf8.v lib/Bytes.vos
+model/FramesCodec.vo model/FramesCodec.glob model/FramesCodec.v.beautified model/FramesCodec.required_vo: model/FramesCodec.v model/FramesM.vo
+model/FramesCodec.vio: model/FramesCodec.v model/FramesM.vio
+model/FramesCodec.vos model/FramesCodec.vok model/FramesCodec.required_vos: model/FramesCodec.v model/FramesM.vos
+model/FramesM.vo model/FramesM.glob model/FramesM.v.beautified model/FramesM.required_vo: model/FramesM.v 
+model/FramesM.vio: model/FramesM.v 
+model/FramesM.vos model/FramesM.vok model/FramesM.required_vos: model/FramesM.v 
 model/HTMLEscapeM.vo model/HTMLEscapeM.glob model/HTMLEscapeM.v.beautified model/HTMLEscapeM.required_vo: model/HTMLEscapeM.v lib/Bytes.vo gen/Facts_HTMLEscape.vo
 model/HTMLEscapeM.vio: model/HTMLEscapeM.v lib/Bytes.vio gen/Facts_HTMLEscape.vio
 model/HTMLEscapeM.vos model/HTMLEscapeM.vok model/HTMLEscapeM.required_vos: model/HTMLEscapeM.v lib/Bytes.vos gen/Facts_HTMLEscape.vos
 model/HtmlDecode.vo model/HtmlDecode.glob model/HtmlDecode.v.beautified model/HtmlDecode.required_vo: model/HtmlDecode.v lib/Bytes.vo lib/Utf8.vo
 model/HtmlDecode.vio: model/HtmlDecode.v lib/Bytes.vio lib/Utf8.vio
 model/HtmlDecode.vos model/HtmlDecode.vok model/HtmlDecode.required_vos: model/HtmlDecode.v lib/Bytes.vos lib/Utf8.vos
+proofs/Frames_lifo.vo proofs/Frames_lifo.glob proofs/Frames_lifo.v.beautified proofs/Frames_lifo.required_vo: proofs/Frames_lifo.v model/FramesM.vo
+proofs/Frames_lifo.vio: proofs/Frames_lifo.v model/FramesM.vio
+proofs/Frames_lifo.vos proofs/Frames_lifo.vok proofs/Frames_lifo.required_vos: proofs/Frames_lifo.v model/FramesM.vos
+proofs/Frames_proofs.vo proofs/Frames_proofs.glob proofs/Frames_proofs.v.beautified proofs/Frames_proofs.required_vo: proofs/Frames_proofs.v gen/Facts_vm.vo model/FramesM.vo
+proofs/Frames_proofs.vio: proofs/Frames_proofs.v gen/Facts_vm.vio model/FramesM.vio
+proofs/Frames_proofs.vos proofs/Frames_proofs.vok proofs/Frames_proofs.required_vos: proofs/Frames_proofs.v gen/Facts_vm.vos model/FramesM.vos
 proofs/HTMLEscape_proofs.vo proofs/HTMLEscape_proofs.glob proofs/HTMLEscape_proofs.v.beautified proofs/HTMLEscape_proofs.required_vo: proofs/HTMLEscape_proofs.v lib/Bytes.vo gen/Facts_HTMLEscape.vo model/HTMLEscapeM.vo lib/Utf8.vo model/HtmlDecode.vo proofs/HtmlDecode_proofs.vo
 proofs/HTMLEscape_proofs.vio: proofs/HTMLEscape_proofs.v lib/Bytes.vio gen/Facts_HTMLEscape.vio model/HTMLEscapeM.vio lib/Utf8.vio model/HtmlDecode.vio proofs/HtmlDecode_proofs.vio
 proofs/HTMLEscape_proofs.vos proofs/HTMLEscape_proofs.vok proofs/HTMLEscape_proofs.required_vos: proofs/HTMLEscape_proofs.v lib/Bytes.vos gen/Facts_HTMLEscape.vos model/HTMLEscapeM.vos lib/Utf8.vos model/HtmlDecode.vos proofs/HtmlDecode_proofs.vos
 proofs/HtmlDecode_proofs.vo proofs/HtmlDecode_proofs.glob proofs/HtmlDecode_proofs.v.beautified proofs/HtmlDecode_proofs.required_vo: proofs/HtmlDecode_proofs.v lib/Bytes.vo lib/Utf8.vo model/HtmlDecode.vo
 proofs/HtmlDecode_proofs.vio: proofs/HtmlDecode_proofs.v lib/Bytes.vio lib/Utf8.vio model/HtmlDecode.vio
 proofs/HtmlDecode_proofs.vos proofs/HtmlDecode_proofs.vok proofs/HtmlDecode_proofs.required_vos: proofs/HtmlDecode_proofs.v lib/Bytes.vos lib/Utf8.vos model/HtmlDecode.vos
+props/C12.vo props/C12.glob props/C12.v.beautified props/C12.required_vo: props/C12.v gen/Facts_vm.vo model/FramesM.vo proofs/Frames_proofs.vo proofs/Frames_lifo.vo
+props/C12.vio: props/C12.v gen/Facts_vm.vio model/FramesM.vio proofs/Frames_proofs.vio proofs/Frames_lifo.vio
+props/C12.vos props/C12.vok props/C12.required_vos: props/C12.v gen/Facts_vm.vos model/FramesM.vos proofs/Frames_proofs.vos proofs/Frames_lifo.vos
 props/C24.vo props/C24.glob props/C24.v.beautified props/C24.required_vo: props/C24.v lib/Bytes.vo gen/Facts_HTMLEscape.vo model/HTMLEscapeM.vo model/HtmlDecode.vo proofs/HTMLEscape_proofs.vo
 props/C24.vio: props/C24.v lib/Bytes.vio gen/Facts_HTMLEscape.vio model/HTMLEscapeM.vio model/HtmlDecode.vio proofs/HTMLEscape_proofs.vio
 props/C24.vos props/C24.vok props/C24.required_vos: props/C24.v lib/Bytes.vos gen/Facts_HTMLEscape.vos model/HTMLEscapeM.vos model/HtmlDecode.vos proofs/HTMLEscape_proofs.vos
